@@ -113,7 +113,7 @@ def inproc_part(ctx, d):
     st = dict(streams=len(lines), evaluations=0, nontrivial=set(), shapes=set(), kinds=collections.Counter(),
               exhaustive_small=sum(1 for l in lines if l.startswith("e")), explicit_chunkings=len(explicit),
               lines=lines, mod=mod)
-    failing = None
+    candidates = []
     for l in lines:
         cid, hx, spec, _ = l.split("\t")
         f, mev = impl.get(cid), mod[cid][0]
@@ -126,12 +126,31 @@ def inproc_part(ctx, d):
         j = judge_inproc(f, mev)
         if j is None and cid in cmod and cmod[cid] != mev:
             j = dict(what="extracted events_chunked and events disagree (theorem C02_chunking says they cannot)", impl=cmod[cid], model=mev)
-        if j and not failing:
-            failing = dict(kind="parser-vs-model", case=cid, stream=resplib.unhex(hx), chunk_spec=spec, **j)
+        if j and len(candidates) < 6:
+            candidates.append((l, dict(kind="parser-vs-model", case=cid, stream=resplib.unhex(hx), chunk_spec=spec, **j)))
+    # a discrepancy counts only if the same case fails again when run alone (CRASH / HANG are
+    # decided by timeouts, which a loaded machine can miss): 2 failures in at most 3 runs
+    failing, notes = None, []
+    for l, cand in candidates:
+        fails = 0
+        for i in range(3):
+            impl1, mod1 = run_inproc(d, [l], "confirm", workers=1, per_case_timeout=240)
+            cid = l.split("\t")[0]
+            j1 = judge_inproc(impl1.get(cid), mod1[cid][0])
+            if j1 is None and "events_chunked" in cand["what"]:
+                j1 = dict(what=cand["what"])      # model-internal and deterministic
+            fails += 1 if j1 else 0
+            if fails >= 2 or (i + 1 - fails) >= 2:
+                break
+        if fails >= 2:
+            failing = cand
+            break
+        notes.append(dict(case=cand["case"], what=cand["what"], reproduced=False))
+    st["unreproduced_discrepancies"] = notes
     if failing:
         small = shrink_inproc(d, failing["stream"], ctx.seed)
         spec = "all" if len(small) <= 10 else "r8"
-        impl2, mod2 = run_inproc(d, ["z\t%s\t%s\t%d" % (resplib.hexs(small), spec, ctx.seed)], "final", workers=1, per_case_timeout=40)
+        impl2, mod2 = run_inproc(d, ["z\t%s\t%s\t%d" % (resplib.hexs(small), spec, ctx.seed)], "final", workers=1, per_case_timeout=240)
         j2 = judge_inproc(impl2.get("z"), mod2["z"][0])
         if j2:
             failing.update(j2)
@@ -199,12 +218,22 @@ def judge_tcp(case, res, dec, pdec):
     if st not in ("EOF", "RESET"):
         return dict(what="the connection did not end as the model says (%s)" % m["end"], status=st)
     replies, left = dec
-    if left:
-        return dict(what="the reply stream does not decode completely", leftover=left.hex(), replies=replies[:20])
-    if len(replies) != m["n"]:
-        return dict(what="number of replies differs from the number of commands the model executes "
-                         "(model: only the commands before the first protocol error)",
-                    replies=replies[:30], n_replies=len(replies), n_executed=m["n"], conn_end_model=m["end"])
+    n = m["n"]
+    if len(replies) > n:
+        return dict(what="more replies than commands the model executes: something after the first protocol error was executed",
+                    replies=replies[:30], n_replies=len(replies), n_executed=n, conn_end_model=m["end"])
+    if m["end"] == "CLOSED-ON-ERROR" and len(replies) < n:
+        # The server closed a connection on which client bytes were still unread: the kernel then
+        # resets the connection and the tail of the replies already written may never reach the
+        # client (TCP behaviour, not the server's).  A prefix of the expected replies is all that
+        # can be demanded here; WHAT was executed is checked through the keyspace (marker cases).
+        res["prefix_only"] = True
+    else:
+        if left:
+            return dict(what="the reply stream does not decode completely", leftover=left.hex(), replies=replies[:20])
+        if len(replies) != n:
+            return dict(what="number of replies differs from the number of commands the model executes",
+                        replies=replies[:30], n_replies=len(replies), n_executed=n, conn_end_model=m["end"])
     if res["witness"] != "WOK":
         return dict(what="another (long-lived) connection stopped working", witness=res["witness"])
     if m["expect_list"] is not None:
@@ -228,10 +257,34 @@ def run_and_judge(server, d, cases, tag, selfclose_ms=20000):
     return res, verdicts
 
 
+def confirm_tcp(d, server, c, st, runs=3, need=2):
+    """verdict if the case fails `need` times, in the same way, in at most `runs` runs alone"""
+    seen = collections.Counter()
+    last = {}
+    for i in range(runs):
+        if not server.alive():
+            server.start()
+            st["server_restarts"] += 1
+        if c.meta.get("marker_key") is not None:
+            resplib.run_tcp(server, d, [resplib.TcpCase("del", G.encode_cmd([b"DEL", c.meta["marker_key"]]))], tag="cdel")
+        _, v = run_and_judge(server, d, [c], "iso")
+        v1 = v[c.id]
+        if not server.alive():
+            v1 = dict(what="the server process died")
+        if v1:
+            seen[v1["what"]] += 1
+            last[v1["what"]] = v1
+            if seen[v1["what"]] >= need:
+                return last[v1["what"]]
+        elif i + 1 - sum(seen.values()) > runs - need:
+            return None      # cannot reach `need` failures any more
+    return None
+
+
 def tcp_part(ctx, d, inproc_stats):
     r = random.Random(ctx.seed * 7777 + 5)
     registered = registered_commands(d)
-    nv, nm, nx, ns = (700, 1000, 1000, 900) if ctx.tier == "quick" else (4000, 6000, 6000, 5000)
+    nv, nm, nx, ns = (500, 800, 700, 600) if ctx.tier == "quick" else (4000, 6000, 6000, 5000)
     raw = []     # (id, stream, marker_key)
     for i in range(nv):
         raw.append(("tv%d" % i, G.encode_pipeline(G.tcp_pipeline(r, b"tv%d:" % i)), None))
@@ -271,29 +324,38 @@ def tcp_part(ctx, d, inproc_stats):
         res, verdicts = run_and_judge(server, d, cases, "tcp")
         died = not server.alive()
         bad = [c for c in cases if verdicts[c.id]]
+        st["tcp_prefix_only"] = sum(1 for x in res.values() if x.get("prefix_only"))
+        st["tcp_cut_short"] = sum(1 for x in res.values() if x["status"] == "SKIPPED")
         failing = None
+        notes = []
         if died or bad:
-            # isolate: when the process died every later case fails too; re-run suspects one by one
-            suspects = bad[:40] if not died else [c for c in cases if verdicts[c.id] or res.get(c.id, {}).get("status") != "EOF"][:60]
+            # A discrepancy seen in the batch counts only if the same stream fails again when run
+            # alone (2 failures of the same kind in at most 3 runs): the batch shares the machine
+            # with whatever else is running, and a deadline missed there is not the server's fault.
+            suspects = bad[:10] if not died else [c for c in cases if verdicts[c.id] or res.get(c.id, {}).get("status") != "EOF"][:25]
             for c in suspects:
-                if not server.alive():
-                    server.start()
-                    st["server_restarts"] += 1
-                _, v1 = run_and_judge(server, d, [c], "iso")
-                if v1[c.id] or not server.alive():
+                v1 = confirm_tcp(d, server, c, st)
+                if v1:
                     failing = dict(kind="tcp-vs-model", case=c.id, stream=c.stream, sizes=c.sizes, mode=c.mode,
                                    marker_key=c.meta["marker_key"], model_events=c.meta["events"][:2000],
-                                   process_died=not server.alive(), **(v1[c.id] or dict(what="the server process died")))
+                                   process_died=not server.alive(), **v1)
                     break
-            if failing is None:
-                c = bad[0] if bad else cases[0]
-                failing = dict(kind="tcp-vs-model", case=c.id, stream=c.stream, sizes=c.sizes, mode=c.mode,
-                               marker_key=c.meta["marker_key"], not_reproduced_alone=True, process_died=died,
-                               server_stderr=server.stderr_tail(),
-                               **(verdicts[c.id] or dict(what="the server process died during the batch; no single stream reproduces it")))
-            else:
+                notes.append(dict(case=c.id, what=(verdicts[c.id] or {}).get("what", "suspect after the process died"), reproduced=False))
+            if failing is None and died:
+                # no single stream kills the process: does the batch do it again?
+                server.start()
+                st["server_restarts"] += 1
+                run_and_judge(server, d, cases, "tcp2")
+                if not server.alive():
+                    failing = dict(kind="tcp-vs-model", case="(whole batch, twice)", stream=b"", sizes="one", mode="F", marker_key=None,
+                                   what="the server process died while serving the batch of TCP streams, twice; no single stream reproduces it",
+                                   process_died=True, server_stderr=server.stderr_tail())
+                else:
+                    notes.append(dict(case="(batch)", what="the server process died once during the batch; not reproduced", reproduced=False))
+            if failing is not None and failing.get("stream"):
                 failing = shrink_tcp(d, server, failing, registered, st)
                 failing["server_stderr"] = server.stderr_tail()
+        st["unreproduced_discrepancies"] = notes[:10]
         st["witness_checks"] = len(res)
         return failing, st
     finally:
@@ -453,6 +515,7 @@ def run(ctx):
         distinct_event_shapes=len(ist["shapes"]) if ist else 0,
         stream_kinds=dict(ist["kinds"]) if ist else {},
         tcp={k: (dict(v) if isinstance(v, collections.Counter) else v) for k, v in tst.items()},
+        inproc_unreproduced_discrepancies=ist.get("unreproduced_discrepancies", []) if ist else [],
         samples=samples or ["(none)"],
         exhaustive=False,
         correspondence="resp.ParseStream (chunked io.Reader) vs extracted events/events_chunked, event for event; real server over TCP vs extracted handle: reply count, self-close on error, keyspace effect, liveness",
